@@ -347,8 +347,8 @@ Qed.
 Theorem fun2core_pre_check : forall p c, compile_prog p = Fun2Core.Ok c -> pre_check c = true.
 Proof.
   intros p c H. unfold compile_prog, compile_prog_gen in H.
-  destruct (compile_defs false (fcpdefs p) _ _ [] []) as [defs|?] eqn:E; simpl in H; [|discriminate].
+  destruct (compile_defs false _ (fcpdefs p) _ _ [] []) as [defs|?] eqn:E; simpl in H; [|discriminate].
   injection H as <-. unfold pre_check. cbn [cpdefs cpmax]. apply forallb_forall. intros x Hx. apply pre_def0.
-  destruct (compile_defs_cover _ _ _ _ _ _ _ E x Hx) as [[]|[[]|[d [ul1 [g [ul2 [Hd [Hg [Hin _]]]]]]]]].
-  destruct (String.eqb (fdname d) "main"); [eapply main_group0 | eapply def_group0]; eauto.
+  destruct (compile_defs_cover _ _ _ _ _ _ _ _ E x Hx) as [[]|[[]|[d [ul1 [g [ul2 [[Hg|Hg] Hin]]]]]]];
+    [eapply main_group0 | eapply def_group0]; eauto.
 Qed.
